@@ -42,13 +42,8 @@ def worker(ck: Check, job):
     zmax = 3 if quick else 6
     digs = Digits(12)
     f = L.flags()
-    groups = MASKS[mask] if quick else (0, 1, 2)
-    if not quick and mask != 'low':
-        return
-    assm = digs.constraints(9 if not quick else 12) + list(L.side_constraints(digs, f))
-    for k in range(4):
-        if k not in groups:
-            assm += [d == 0 for d in digs.group(k)]
+    dom = 'sparse' if quick else 'full9'
+    assm = digs.domain(dom) + list(L.side_constraints(digs, f))
     assm.append(z3.Not(digs.is_zero()))
     z = z3.BitVec('nzeros', 8)
     assm.append(z3.ULE(z, zmax))
@@ -58,7 +53,7 @@ def worker(ck: Check, job):
     words_of = lambda m: concrete_phrase(slots, m)
     name = '%s:%s' % (code, mask)
     ck.bounds['leading_zero_words_max'] = zmax
-    ck.bounds['groups_%s' % mask] = 'non-zero digits only in 3-digit groups %s' % (list(groups),)
+    ck.bounds['domain'] = dom + ': ' + ('units group free, one digit in each of the thousands/millions/billions groups' if quick else 'n < 10^9')
 
     # ---------------------------------------------------------------- validator
     ex = make_executor(ck, assm)
@@ -132,8 +127,6 @@ def worker(ck: Check, job):
     ck.cover(name + ':scanner:ok', assm + [z3.Or(*ok2), z3.UGE(z, 1)] if ok2 else [False],
              lambda m: {'lang': code, 'tokens': [t.text for t in concrete_tokens(tslots, m)], 'expected': expect(m)})
 
-    if mask != 'low':
-        return
     # ---------------------------------------------------------------- number followed by a zero -> 'n 0' ; lone zero
     assm3 = [c for c in assm if True] + [z == 0]
     slots3 = card + [[(True, L.zero)]]
@@ -213,12 +206,9 @@ def run(ck: Check):
     only = os.environ.get('VERIF_LANGS')
     if only:
         langs = [c for c in langs if c in only.split(',')]
-    jobs = [(c, m) for c in langs for m in (('low', 'mil', 'high') if ck.tier == 'quick' else ('low',))]
-    if ck.tier == 'quick':
-        # French scanner is costly: only the low mask there
-        jobs = [j for j in jobs if not (j[0] == 'fr' and j[1] != 'low')]
+    jobs = [(c, 'n') for c in langs]
     run_parallel(ck, worker, jobs)
-    ck.outside.append('more than %d leading zero words; n >= 10^9 (thorough) / digits outside the listed group masks (quick)'
+    ck.outside.append('more than %d leading zero words; quick: n outside the sparse domain (units group free, one digit in each higher group); thorough: n >= 10^9'
                       % (3 if ck.tier == 'quick' else 6))
     return ('k spoken zeros (k symbolic) followed by the spelling of n (digits symbolic, via the reference speller): '
             'text2digits and find_numbers executed from MIR, z3 decides that the result is the single numeral 0^k n; '
